@@ -63,14 +63,6 @@ theorem applyArms_none (arms : List Arm) (x : Nat) : applyArms arms .none x = lo
   unfold applyArms
   cases lookupArms arms x <;> rfl
 
-/-! ### all bytes -/
-
-def allBytes (p : Nat → Bool) : Bool := (List.range 256).all p
-
-theorem allBytes_spec {p : Nat → Bool} (h : allBytes p = true) (b : Nat) (hb : b < 256) : p b = true := by
-  simp only [allBytes, List.all_eq_true, List.mem_range] at h
-  exact h b hb
-
 /-! ### Annex D look-ups -/
 
 theorem tbl_length (e : Enc) : (AnnexD.tbl e).length = 256 := by
@@ -84,6 +76,53 @@ theorem dec_lt {e : Enc} {b u : Nat} (h : AnnexD.dec e b = some u) : b < 256 := 
     have := (List.getElem?_eq_some_iff.mp hg).1
     rw [tbl_length] at this
     exact this
+
+/-! ### one pass over a 256-entry table (looking slots up one by one is slow in the kernel) -/
+
+def tblAllAux (p : Nat → Option Nat → Bool) : List (Option Nat) → Nat → Bool
+  | [], _ => true
+  | v :: r, i => p i v && tblAllAux p r (i + 1)
+
+/-- `p byte slot` holds for every slot of the table. -/
+def tblAll (p : Nat → Option Nat → Bool) (t : List (Option Nat)) : Bool := tblAllAux p t 0
+
+theorem tblAllAux_spec {p : Nat → Option Nat → Bool} {t : List (Option Nat)} {i : Nat}
+    (h : tblAllAux p t i = true) (k : Nat) (v : Option Nat) (hk : t[k]? = some v) : p (i + k) v = true := by
+  induction t generalizing i k with
+  | nil => simp at hk
+  | cons x r ih =>
+    simp only [tblAllAux, Bool.and_eq_true] at h
+    cases k with
+    | zero =>
+      simp only [List.getElem?_cons_zero, Option.some.injEq] at hk
+      subst hk; exact h.1
+    | succ k =>
+      simp only [List.getElem?_cons_succ] at hk
+      have := ih h.2 k hk
+      have e : i + 1 + k = i + (k + 1) := by omega
+      rw [e] at this; exact this
+
+/-- The checked predicate holds at every byte, for the slot content `dec e b`. -/
+theorem tblAll_lt {e : Enc} {p : Nat → Option Nat → Bool} (h : tblAll p (AnnexD.tbl e) = true)
+    (b : Nat) (hb : b < 256) : p b (AnnexD.dec e b) = true := by
+  have hl : b < (AnnexD.tbl e).length := by rw [tbl_length]; exact hb
+  have hg : (AnnexD.tbl e)[b]? = some ((AnnexD.tbl e)[b]) := List.getElem?_eq_getElem hl
+  have := tblAllAux_spec h b _ hg
+  simp only [Nat.zero_add] at this
+  unfold AnnexD.dec
+  rw [hg]; exact this
+
+theorem tblAll_dec {e : Enc} {p : Nat → Option Nat → Bool} (h : tblAll p (AnnexD.tbl e) = true)
+    {b u : Nat} (hd : AnnexD.dec e b = some u) : p b (some u) = true := by
+  have := tblAll_lt h b (dec_lt hd)
+  rw [hd] at this; exact this
+
+/-- number of slots satisfying `p` -/
+def tblCountAux (p : Nat → Option Nat → Bool) : List (Option Nat) → Nat → Nat
+  | [], _ => 0
+  | v :: r, i => (if p i v then 1 else 0) + tblCountAux p r (i + 1)
+
+deriving instance DecidableEq for Except
 
 theorem findSlot_none {t : List (Option Nat)} {c i : Nat} (h : AnnexD.findSlot t c i = none) :
     ∀ k : Nat, t[k]? ≠ some (some c) := by
